@@ -17,25 +17,25 @@
    * what the READERS accept (decode_props in lzma2_reader.rs, construct2 in lzma_reader.rs, BlockHeader::parse
      in xz/reader.rs) - fixed by the formats;
    * what the WRITERS check. Each validation is a variant constant: FALSE = absent, as at the pinned commit;
-     TRUE = present. Constructors that return Result report an error (Err); LZMA2Writer::new, LZIPWriter::new
-     cannot, they clamp the value into range (outcome OkDecodable).
+     TRUE = present. LZMAWriter::new and XZWriter::new report an error (Err); LZMA2Writer::new and
+     LZIPWriter::new cannot, they clamp / drop the value (outcome OkDecodable) - see Strict below.
        VProps   lc <= 8, lp <= 4, pb <= 4, and lc + lp <= 4 for LZMA2
        VDict    4096 <= dict_size <= 768 MiB (the LZ encoder's positions are 31-bit)
        VNice    8 <= nice_len <= 273
        VPreset  an empty preset dictionary is no preset dictionary; XZ / LZIP cannot carry one
        VFilter  delta distance 1..256, BCJ start offset aligned, LZMA2 not allowed as a pre-filter
        VSize    LZMA2WriterMT does not reserve chunk_size bytes up front
+       VReaderMinDict  (reader side) LZMA2Reader::new raises a dictionary size below 4 KiB to the format minimum, as
+                LZMAReader does; FALSE: LZMA2Reader::new(_, 0, _) builds an empty window and panics on first use
    Class(p) predicts the outcome of executing the point on the real code:
      "Err" | "OkDecodable" | "OkUndecodable" | "Panic".  Contract (C19): Class(p) \in {"Err", "OkDecodable"}. *)
 EXTENDS Naturals, Sequences, FiniteSets, TLC, Json
 
-CONSTANTS VProps, VDict, VNice, VPreset, VFilter, VSize,
+CONSTANTS VProps, VDict, VNice, VPreset, VFilter, VSize, VReaderMinDict,
           Writers, Export
 
 Lzma2Family(w) == w \in {"lzma2", "xz", "lzma2mt"}
 LzipFamily(w) == w \in {"lzip", "lzipmt"}
-Reports(w) == w \in {"lzma", "lzmahdr", "xz", "lzma2mt"}   \* constructor returns Result and reports bad options
-                                                          \* (LZMA2Writer / LZIPWriter(MT)::new clamp instead)
 \* LZIPWriter / LZIPWriterMT override lc / lp / pb with the LZMA-302eos values and clamp the dictionary
 Lc(p) == IF LzipFamily(p.w) THEN 3 ELSE p.lc
 Lp(p) == IF LzipFamily(p.w) THEN 0 ELSE p.lp
@@ -73,7 +73,10 @@ ReaderFilter(p) ==
     [] p.ft = "lzma2" -> FALSE                            \* two LZMA2 filters: the inner stream is not what the header says
     [] p.ft = "three" -> TRUE
     [] p.ft = "four" -> TRUE                              \* never written: the writer refuses
-ReaderDecodes(p) == ReaderProps(p) /\ ReaderPreset(p) /\ ReaderFilter(p)
+\* raw LZMA2: the reader is told the caller's dict_size. The infallible writers never use a larger dictionary than
+\* announced (0 is lifted to 1), so only the reader's own handling of 0 matters
+ReaderDict(p) == VReaderMinDict \/ ~(p.w \in {"lzma2", "lzma2mt"} /\ DictZero(p.dict))
+ReaderDecodes(p) == ReaderProps(p) /\ ReaderPreset(p) /\ ReaderFilter(p) /\ ReaderDict(p)
 
 \* ------------------------------------------------------------------ what the writers do
 \* validations of the pinned commit
@@ -82,17 +85,27 @@ ErrBuiltin(p) ==
   \/ p.w = "lzmahdr" /\ p.pd # "none"
   \/ p.w \in {"lzma2mt", "lzipmt"} /\ p.sz = "unset"
   \/ p.w = "lzmahdr" /\ p.sz \in {"exp_less", "exp_more"}
+Strict(w) == w \in {"lzma", "lzmahdr", "xz"}     \* constructors that report a bad option (see below)
 \* out-of-range values by validation group
 BadProps(p) == Lc(p) > 8 \/ Lp(p) > 4 \/ Pb(p) > 4 \/ (Lzma2Family(p.w) /\ Lc(p) + Lp(p) > 4)
-BadDict(p) == IF LzipFamily(p.w) THEN FALSE ELSE (DictBelowMin(p.dict) \/ DictAboveEnc(p.dict))
+\* strict constructors reject everything outside 4 KiB..768 MiB; LZMA2Writer::new only lowers (and lifts 0 to 1)
+BadDict(p) == IF LzipFamily(p.w) THEN FALSE
+              ELSE IF Strict(p.w) THEN (DictBelowMin(p.dict) \/ DictAboveEnc(p.dict))
+              ELSE (DictZero(p.dict) \/ DictAboveEnc(p.dict))
 BadNice(p) == p.nice < 8 \/ p.nice > 273
 BadPreset(p) == (p.pd = "empty" /\ p.w = "lzma2") \/ (p.pd # "none" /\ (p.w = "xz" \/ LzipFamily(p.w)))
 BadFilter(p) == p.w = "xz" /\ ((p.ft = "delta" /\ p.fv \in {"0", "257"}) \/ (p.ft = "bcj" /\ p.fv = "unaligned") \/ p.ft = "lzma2")
-Rejected(p) ==
-  \/ (VProps /\ BadProps(p)) \/ (VDict /\ BadDict(p)) \/ (VNice /\ BadNice(p))
-  \/ (VPreset /\ BadPreset(p)) \/ (VFilter /\ BadFilter(p))
-\* a fallible constructor reports the rejected value; an infallible one clamps it into range
-WriterErrors(p) == ErrBuiltin(p) \/ (Rejected(p) /\ Reports(p.w))
+\* Who reports and who clamps, per validation group (as implemented by the fix commits):
+\*   LZMAWriter::new / XZWriter::new return InvalidInput; LZMA2Writer::new cannot fail and clamps, and the workers of
+\*   LZMA2WriterMT go through it; LZIPWriter(MT) clamp the dictionary and drop the preset dictionary themselves but
+\*   construct their LZMAWriter lazily through the fallible constructor, so a bad nice_len surfaces as an error of
+\*   the first write / finish.
+ErrProps(p) == VProps /\ BadProps(p) /\ Strict(p.w)
+ErrDict(p) == VDict /\ BadDict(p) /\ Strict(p.w)
+ErrNice(p) == VNice /\ BadNice(p) /\ (Strict(p.w) \/ LzipFamily(p.w))
+ErrPreset(p) == VPreset /\ p.w = "xz" /\ p.pd \in {"some", "long"}
+ErrFilter(p) == VFilter /\ BadFilter(p)
+WriterErrors(p) == ErrBuiltin(p) \/ ErrProps(p) \/ ErrDict(p) \/ ErrNice(p) \/ ErrPreset(p) \/ ErrFilter(p)
 \* where the unvalidated value breaks the encoder (as built)
 PanicProps(p) == Lc(p) > 8 \/ Pb(p) > 4
 DictOverflows(d) == d \in {"2G", "4G-16", "4G-1"}                     \* dict_size as i32 + 1 is negative
@@ -110,6 +123,7 @@ StreamDecodes(p) ==
   /\ (ReaderProps(p) \/ (VProps /\ BadProps(p)))
   /\ (ReaderPreset(p) \/ (VPreset /\ BadPreset(p)))
   /\ (ReaderFilter(p) \/ (VFilter /\ BadFilter(p)))
+  /\ ReaderDict(p)
 
 Class(p) ==
   IF WriterErrors(p) THEN "Err"
